@@ -126,6 +126,10 @@ def check_graph(pid, tier, seed, runs):
             "probe_notes": notes,
             "known_findings_hit": known_hits,
             "duplicate_violation_reports": len(dups),
+            "real_thread_differentials_run": int(counts.get("real_thread_differentials", 0)),
+            "real_thread_differential_note": "observation of real threaded executions, triggered only by probe M1 "
+                                             "(a task writes to an array shared through the task definition); a clean "
+                                             "differential is not counted as evidence",
             "last_run_index": max([s.get("last_index", -1) for s in summaries] or [-1]),
             "workers": NWORKERS,
             "components": REAL_STUB,
@@ -161,6 +165,10 @@ def replay_graph(path):
     rep = util.load_file(path)
     pid = rep["property"]
     P = GRAPH_PROPS[pid]
+    for pre in rep.get("prelude") or []:
+        # the calls the failing process had made before (history-dependent violation)
+        po = run_case(pre["case"], pre["sched"], P.compare)
+        print("replay: prelude case op=%s status=%s" % (pre["case"]["op"], po["status"]))
     o = run_case(rep["case"], rep["sched"], P.compare, m1=True)
     sim = o.get("sim")
     if sim is not None:
@@ -175,6 +183,21 @@ def replay_graph(path):
             "same" if same else "DIFFERENT", json.dumps(util.to_jsonable(o["violation"]))[:600]))
         return 1
     print("replay did not reproduce a violation (status=%s %s)" % (o["status"], o.get("reason", "")))
+    return 0
+
+
+def replay_threads(path):
+    from .props import GRAPH_PROPS
+    from . import realthreads
+    rep = util.load_file(path)
+    pid = rep["property"]
+    v = realthreads.replay_dask_threads(rep, GRAPH_PROPS[pid].compare)
+    if v is not None:
+        print("VIOLATION property=%s replay=%s" % (pid, path))
+        print("  real dask.threaded executions (not simulation): mismatch at repetition %s: %s"
+              % (v.get("repetition"), json.dumps(util.to_jsonable(v))[:500]))
+        return 1
+    print("replay (30 real threaded executions) did not reproduce a violation; the recorded one was probabilistic")
     return 0
 
 
@@ -197,6 +220,8 @@ def main(argv=None):
         rep = json.load(open(a.replay))
         if rep.get("engine") == "graphsim":
             return replay_graph(a.replay)
+        if rep.get("engine") == "real_threads":
+            return replay_threads(a.replay)
         from . import hist_main
         return hist_main.replay(a.replay)
     if a.target in GRAPH:
